@@ -129,32 +129,54 @@ func (p *c10Proc) waitMarker(k int, timeout time.Duration) (seg string, ok bool)
 	}
 }
 
-// c10Snapshot records and removes every regular file below dir (except the sub-directory tmp's
-// name, which is kept but emptied), so that the next line starts from an empty directory.
-func c10Snapshot(dir string) (map[string]string, map[string]string) {
-	var out, bags map[string]string
+// c10Snapshot looks at every regular file below dir after a line has run. Files the user named (`> file`,
+// `output=file`) STAY where they are — a later command writing to the same name must replace them — and
+// are reported for this line iff the line WROTE them: after every snapshot the harness sets their
+// modification time to a sentinel in the past, so any create/truncate/write shows (even one that leaves
+// the same bytes). Automatically named files (profile001.pb.gz …, everything under tmp/) are reported and
+// removed, so that their numbering does not depend on the history.
+var c10Sentinel = time.Unix(1000000000, 0)
+
+func c10Snapshot(dir string) (files, bags map[string]string) {
 	filepath.Walk(dir, func(path string, info os.FileInfo, err error) error {
 		if err != nil || info.IsDir() {
 			return nil
 		}
-		b, _ := os.ReadFile(path)
-		os.Remove(path)
-		b = bytes.ReplaceAll(b, []byte(dir), []byte("<DIR>")) // the session directory is not part of the observation
 		rel, _ := filepath.Rel(dir, path)
-		rel = c10TmpNameRE.ReplaceAllString(rel, "$1<N>")
-		if out == nil {
-			out, bags = map[string]string{}, map[string]string{}
+		auto := strings.HasPrefix(rel, "tmp"+string(filepath.Separator)) || c10TmpNameRE.MatchString(filepath.Base(rel))
+		if !auto && info.ModTime().Equal(c10Sentinel) {
+			return nil // untouched since the previous snapshot
+		}
+		b, _ := os.ReadFile(path)
+		b = bytes.ReplaceAll(b, []byte(dir), []byte("<DIR>")) // the session directory is not part of the observation
+		if auto {
+			os.Remove(path)
+			rel = c10TmpNameRE.ReplaceAllString(rel, "$1<N>")
+		} else {
+			os.Chtimes(path, c10Sentinel, c10Sentinel)
+		}
+		if files == nil {
+			files, bags = map[string]string{}, map[string]string{}
 		}
 		h := sha256.Sum256(b)
-		out[rel] = fmt.Sprintf("%d:%s", len(b), hex.EncodeToString(h[:8]))
+		files[rel] = fmt.Sprintf("%d:%s", len(b), hex.EncodeToString(h[:8]))
 		bags[rel] = c10TokenBag(string(b))
 		return nil
 	})
-	return out, bags
+	return files, bags
+}
+
+// c10Outs: the `must` list of a reference script — nothing for the replayed assignments, `last` for the probe.
+func c10Outs(n int, last string) []string {
+	o := make([]string, n)
+	if n > 0 {
+		o[n-1] = last
+	}
+	return o
 }
 
 // c10RunSession runs `lines` in a fresh pprof process with working directory caseDir/<name>.
-func c10RunSession(pprofBin, caseDir, name string, lines []string, wantOptions bool) *c10Session {
+func c10RunSession(pprofBin, caseDir, name string, lines []string, _ []string, wantOptions bool) *c10Session {
 	res := &c10Session{}
 	dir := filepath.Join(caseDir, name)
 	os.RemoveAll(dir)
